@@ -52,6 +52,10 @@ claimed = {
    text="hostBucketMiddleware and hostBucketBaseMiddleware closures are verified in the SMT theory of strings: the rewritten request path is '/' + first host label + original path exactly when the host has the form <single label>.<base> for a configured base (or unconditionally in host-bucket mode), untouched otherwise, and the inner handler is served exactly once with it; Server wires the middlewares according to the options. routeBase's dispatch is verified over the decomposition of the path.",
    note="The slash normalisation inside routeBase (strings.Trim + SplitN) is checked by a bounded exhaustive stand-in (all paths over {a,/,.} up to length 7 quick / 9 thorough) and reported as bounded. net/http behaviour (Host header parsing) is an assumed contract.",
    technique=T+" (theory of strings)", design="7 (C16)"),
+ "C10": dict(category="proof",
+   text="Memory backend: every bucket/object operation carries frame clauses taken from the statement (operations on (bucket,key) leave hasObj/objAt of every other key and has/at of every other bucket unchanged; listings and reads are unchanged() on the whole store), discharged for all inputs. Bolt backend: the bolt file's top-level buckets are one namespace shared with the bookkeeping bucket '_meta'; the library contracts of Tx.Bucket/CreateBucket/DeleteBucket require a name different from '_meta', bolt.DB.View/Update are modelled as invoking their closure, and every S3-addressed call site in s3bolt discharges that precondition (it did not before fix f4a4952, D12).",
+   note="Filesystem backends are outside the verified set: confinement of keys with '..' segments (D13 of DESIGN.md, reproduced by hand) depends on path.Join/Clean and afero semantics that no contract here models, so that conjunct is NOT decided. Bolt: only the call-site preconditions are claimed for s3bolt functions; the object invariant str(db.metaBucketName)=='_meta' is assumed at method entry (established by New when no option is passed; the field is checked to be written only in New). routeBase does not clean paths (C16 contracts).",
+   technique=T, design="7 (C10), 12"),
 }
 na = {
  "C15": "not applicable: restart/crash durability rests on bbolt's commit protocol, OS file semantics and BSON/JSON encoders, none of which is /repo code a function contract can express (DESIGN.md section 11)",
